@@ -15,6 +15,8 @@
 import YaraModel.Lemmas.ArenaExample
 import YaraModel.Lemmas.ArenaRoundTrip
 import YaraModel.Lemmas.ArenaLoadRules
+import YaraModel.Lemmas.RulesFile
+import YaraModel.Gen.RulesFile
 namespace YaraModel.Arena
 open YaraModel.Gen.ArenaLayout
 
@@ -399,5 +401,22 @@ theorem rules_after_size_corruption (cfg : LoaderCfg) (alloc : Nat → Nat) (hnz
     loadRules cfg alloc (patch (save a) (sizeFieldAt i) (leBytes 4 z)) =
       if i = summarySection ∧ z = 0 then .error .corruptFile else .ok A' :=
   loadRules_after_size_patch cfg alloc hnz a hn hsum hsz hsz2 i hi z hz A' hA
+
+/-! ## the file-name API gives its handle back -/
+
+/-- **A rejected file is an error and nothing else — also for the FILE handle.**  `Gen.RulesFile.rulesLoad` /
+    `rulesSave` are the bodies of yr_rules_load / yr_rules_save of the source tree, statement by statement (fopen,
+    the NULL test, the call of the stream function, fclose, return; regenerated on every run).  Whatever fopen, the
+    stream loader / saver answer (every outcome list): the function holds no FILE handle when it returns — the
+    damaged file that yr_rules_load_stream refuses is closed like the intact one.  (An early return between fopen and
+    fclose, e.g. FAIL_ON_ERROR around the stream call, makes `balanced` false and this theorem unprovable.) -/
+theorem file_api_gives_back_handle (outcomes : List Bool) :
+    RulesFile.exec Gen.RulesFile.rulesLoad false outcomes = 0 ∧ RulesFile.exec Gen.RulesFile.rulesSave false outcomes = 0 ∧
+      Gen.RulesFile.unparsed = false :=
+  ⟨RulesFile.balanced_sound _ _ _ (by decide), RulesFile.balanced_sound _ _ _ (by decide), rfl⟩
+
+/-- the statement is not vacuous: the same body with FAIL_ON_ERROR around the stream call keeps the handle when the
+    stream loader fails (fopen succeeds, the call fails) -/
+example : RulesFile.exec [.fopen, .retIfNull, .failOnError, .fclose, .ret] false [true, false] = 1 := by decide
 
 end YaraModel.Arena
